@@ -172,7 +172,7 @@ def rule_semilocal(chk, cx):
             continue
         fill = s.hooks.method_of(plan, "get_feat").fdef
         for i, d in enumerate(decl):
-            cx.expect("sl-deg", res, where, feat.rows[i], d, "feat[:, %d]" % i, PL, "_BaseSemilocalPlan._fill_feat_%s_" % mode,
+            cx.expect("sl-deg", res, where, feat.rows[i], d, "feat[:, %d]" % i, PL, "SemilocalPlan2.get_feat[mode=%s]" % mode,
                       "feat[:, %d] in mode %s" % (i, mode), fill.lineno)
     chk.floor("sl-deg", 10, "11 function components + 10 plan rows")
 
@@ -262,22 +262,34 @@ def rule_normalizers(chk, cx):
         st = s.new(ST, "SemilocalSettings", K(mode))
         decl = declared_list(s.call(st, "get_feat_usps").value, "get_feat_usps")
         X = deg.rows(1, {i: Q(Deg({"lam": d})) for i, d in enumerate(decl)})
-        nl = s.new(FN, "FeatNormalizerList", lst(), K(mode))
-        if not isinstance(nl, Obj):
-            raise core.AnalysisError("FeatNormalizerList: constructor could not be interpreted")
-        res = s.call(nl, "_get_rho_and_inh", [X])
-        where = "FeatNormalizerList._get_rho_and_inh(slmode=%s)" % mode
+        # public entry point: get_normalized_feature_vector hands (rho_term, inh_term) to each normaliser's
+        # fill_fwd; observe those two arguments, whatever private helper computes them
+        probe = s.new(FN, "ConstantNormalizer", sym("c"))
+        nl = s.new(FN, "FeatNormalizerList", lst(probe), K(mode))
+        if not isinstance(nl, Obj) or not isinstance(probe, Obj):
+            raise core.AnalysisError("FeatNormalizerList / ConstantNormalizer: constructor could not be interpreted")
+        X = deg.rows(1, {i: Q(Deg({"lam": d})) for i, d in enumerate(decl)})
+        X.shape = Tup([sym("nspin"), num(1), sym("ngrid")])
+        seen = []
+
+        def ob(node, name, args, kwargs):
+            if (name or "").split(".")[-1] == "fill_fwd" and len(args) >= 3:
+                seen.append((node, args[1], args[2]))
+        s.eng.call_observers = [ob]
+        try:
+            res = s.call(nl, "get_normalized_feature_vector", [X])
+        finally:
+            s.eng.call_observers = []
+        where = "FeatNormalizerList.get_normalized_feature_vector(slmode=%s)" % mode
         cx.flush("norm-usp", res, where)
-        vals = deg.items_of(res.value)
-        fdef = s.hooks.method_of(nl, "_get_rho_and_inh").fdef
-        if vals is None or len(vals) != 2:
+        if not seen:
             if not res.mismatches:
-                raise core.AnalysisError("%s: unexpected return %s" % (where, fmt(res.value)))
+                raise core.AnalysisError("%s: no normaliser fill_fwd call was reached" % where)
             continue
-        cx.expect("norm-usp", res, where, vals[0], L(3), "rho_term", FN, "FeatNormalizerList._get_rho_and_inh",
-                  "rho_term (slmode %s)" % mode, fdef.lineno)
-        cx.expect("norm-usp", res, where, vals[1], L(0), "inh_term", FN, "FeatNormalizerList._get_rho_and_inh",
-                  "inh_term (slmode %s)" % mode, fdef.lineno)
+        node, rho_t, inh_t = seen[0]
+        fname = "FeatNormalizerList.get_normalized_feature_vector"
+        cx.expect("norm-usp", res, where, rho_t, L(3), "rho_term", FN, fname, "rho_term (slmode %s)" % mode, node.lineno)
+        cx.expect("norm-usp", res, where, inh_t, L(0), "inh_term", FN, fname, "inh_term (slmode %s)" % mode, node.lineno)
     chk.floor("norm-usp", 8, "4 classes x (fill_fwd, get_ueg) + 4 slmodes x (rho, inh)")
 
 
